@@ -9,6 +9,7 @@ import Drivers.Comm
 import Drivers.NodeCell
 import Drivers.Codec
 import Drivers.Dist
+import Drivers.MeshOps
 
 /-! `refdrv <driver> [args]` : dispatch to a line-protocol driver. One match arm per driver, on one line. -/
 
@@ -23,6 +24,7 @@ def main (args : List String) : IO UInt32 := do
   | "nodecell" :: rest => Drivers.NodeCell.run rest
   | "codec" :: rest => Drivers.Codec.run rest
   | "dist" :: rest => Drivers.Dist.run rest
+  | "meshops" :: rest => Drivers.MeshOps.run rest
   | _ =>
     IO.eprintln s!"refdrv: unknown driver {args}"
     return 2
